@@ -7,7 +7,7 @@ ids=${@:-$(ls seeded)}
 rc=0
 for id in $ids; do
   prop=${id%%-*}
-  out=$(tools/try_mutant.sh seeded/$id/patch.diff $prop 2>&1)
+  out=$(tools/try_mutant.sh /verif/seeded/$id/patch.diff $prop 2>&1)
   if echo "$out" | grep -q "^VIOLATION property=$prop"; then
     echo "DETECTED $id: $(echo "$out" | grep -m1 "^VIOLATION" | cut -c1-160)"
   else
